@@ -242,4 +242,4 @@ def nontrivial(case, result):
 
 def prebuild(root):
     """translator: regenerate coq/Generated/Loops.v from /repo/src (cast_up / cast_down are proved equal to the model in Proofs/LoopsTieC09.v)"""
-    return run_translator(root, "rs2v_loops.py", "C09") or run_translator(root, "rs2v_conv.py", "C09")
+    return run_translator(root, "rs2v_loops.py", "C09") or run_translator(root, "rs2v_conv.py", "C09") or run_translator(root, "rs2v_xcast.py", "C09")
